@@ -49,6 +49,33 @@ MEMO_DISTS = {"std_gamma", "gamma", "std_beta", "beta", "PERT", "PERT_mod", "chi
               "geometric", "negative_binomial", "pascal"}
 
 
+# Samplers that reach a memoising function (std_gamma: a_prev/c/d; geometric: prev/denom), with the positions of the
+# parameters that end up as the memo key.  `near_op` perturbs those by a few 1e-10 (different doubles less than 1e-9
+# apart — a sensitivity sweep with a tiny step, or a parameter computed along two floating-point routes): a cache that is
+# keyed on anything but the exact argument shows up as a dependence on the history.
+NEAR = [
+    ("std_gamma", [2.5], [0]), ("std_gamma", [0.75], [0]), ("gamma", [3.0, 2.0], [0]), ("chisquared", [5.0], [0]),
+    ("std_beta", [2.0, 3.0], [0, 1]), ("beta", [2.0, 3.0, -1.0, 4.0], [0, 1]), ("PERT", [1.0, 2.0, 6.0], [1]),
+    ("PERT_mod", [1.0, 2.0, 6.0, 4.0], [3]), ("F_dist", [3.0, 5.0], [0, 1]), ("std_t_dist", [4.0], [0]),
+    ("t_dist", [1.0, 2.0, 5.0], [2]), ("geometric", [0.3], [0]), ("negative_binomial", [3, 0.6], [1]), ("pascal", [2, 0.5], [1]),
+]
+NEAR_DELTAS = [0.0, 4e-10, -4e-10, 7e-10, 2e-10, -9e-10, 1.5e-9]
+# which `dist` operations reach a memoising function directly, as (name, parameters from the memo key x)
+MEMO_OPS = {
+    "cmb_random_std_gamma": [("std_gamma", lambda x: [x]), ("gamma", lambda x: [x, 2.0]), ("chisquared", lambda x: [2.0 * x]),
+                             ("std_beta", lambda x: [x, 3.0])],
+    "cmb_random_geometric": [("geometric", lambda x: [x]), ("negative_binomial", lambda x: [3, x]), ("pascal", lambda x: [2, x])],
+}
+
+
+def near_op(r, entry=None, delta=None, n=None):
+    name, base, idx = entry or r.choice(NEAR)
+    ps = list(base)
+    for i in idx:
+        ps[i] = ps[i] + (r.choice(NEAR_DELTAS) if delta is None else delta)
+    return "dist %s %d %s" % (name, n if n is not None else r.choice([1, 2, 5]), " ".join(fmt(p) for p in ps))
+
+
 def fmt(x):
     return str(x) if isinstance(x, int) else repr(float(x))
 
@@ -149,10 +176,16 @@ def gen_seedalone(r):
     if r.random() < 0.4:
         # a memoising sampler called with the SAME and with a DIFFERENT parameter than the history may have used
         calls.append(dist_op(r, name=r.choice(["std_gamma", "geometric", "chisquared", "std_beta"])))
+    near = r.choice(NEAR) if r.random() < 0.35 else None
+    if near:
+        # the same memoising sampler before and after seeding, its key a hair (< 1e-9) off
+        calls.insert(r.randrange(len(calls) + 1), near_op(r, near, delta=r.choice(NEAR_DELTAS)))
     nh = r.choice([1, 2, 3])
     runs = [["seed %d" % seed, "mark"] + calls]
     for _ in range(nh):
         h = gen_history(r)
+        if near:
+            h.insert(r.randrange(len(h) + 1), near_op(r, near))
         if r.random() < 0.5:
             h.append("flip %d" % r.choice([1, 3, 17, 63, 65]))       # leave a partially consumed bit cache
         if r.random() < 0.3:
@@ -358,6 +391,75 @@ def shrink(sc, still_fails, budget=150):
                             changed = True
                             break
     return cur
+
+
+MEMO_BASES = {"cmb_random_geometric": [0.125, 0.3, 0.75]}
+MEMO_BASES_DEFAULT = [2.5, 3.0, 1.0, 7.0, 0.5]
+LEAN_FN = {"sqrt": "Float.sqrt", "log": "Float.log", "fabs": "Float.abs", "exp": "Float.exp", "floor": "Float.floor",
+           "ceil": "Float.ceil", "log2": "Float.log2", "log10": "Float.log10", "cbrt": "Float.cbrt"}
+
+
+def lean_memo_disagreements(memo_meta, limit=12):
+    """When a memo theorem of Props/C15.lean fails: evaluate the REGENERATED memo prologues in Lean with IEEE doubles
+    (FloatOps Float: literals by value, libm functions by name) on a grid of keys — equal, one ulp apart, a few 1e-10
+    apart, 1e-6 apart, far apart — and list the pairs (x, y) for which the step lemma of the theorem is false:
+        prologue x (prologue y init)  differs (bit patterns) from  prologue x init.
+    Returns {function: [(x, y), ...]} with exact doubles, and the Lean output."""
+    import struct
+    gen = open(os.path.join(vlib.GEN, "Rng.lean")).read()
+    lits = sorted(set(re.findall(r'o\.lit "([^"]*)"', gen)))
+    fns = sorted(set(re.findall(r'o\.fn "([^"]*)"', gen)))
+
+    def lean_float(v):
+        return "(Float.ofBits %d)" % struct.unpack("<Q", struct.pack("<d", float(v)))[0]
+    text = ["import CimbaModel.Generated.Rng", "open CimbaModel.Generated CimbaModel.Rng", "",
+            "def litF : String → Float"] + ['  | "%s" => %s' % (l, lean_float(l)) for l in lits] + ["  | _ => 0.0 / 0.0", "",
+            "def fnF : String → Float → Float"] + ['  | "%s" => %s' % (f, LEAN_FN[f]) for f in fns if f in LEAN_FN] + ["  | _ => fun _ => 0.0 / 0.0", "",
+            "def ieee : FloatOps Float := { lit := litF, add := (· + ·), sub := (· - ·), mul := (· * ·), div := (· / ·), neg := fun a => -a, fn := fnF, "
+            "ne := fun a b => a != b, eq := fun a b => a == b, lt := fun a b => decide (a < b), le := fun a b => decide (a ≤ b), "
+            "gt := fun a b => decide (a > b), ge := fun a b => decide (a ≥ b) }", ""]
+    wanted = []
+    for m in memo_meta:
+        if len(m["params"]) != 1:
+            continue
+        f = m["function"]
+        keys = []
+        for b in MEMO_BASES.get(f, MEMO_BASES_DEFAULT):
+            up = struct.unpack("<d", struct.pack("<Q", struct.unpack("<Q", struct.pack("<d", b))[0] + 1))[0]
+            keys += [b, b + 4e-10, b - 4e-10, b + 9e-10, up, b + 1e-6]
+        wanted.append(f)
+        same = " && ".join("a.%s.toBits == b.%s.toBits" % (n, n) for n in m["statics"])
+        text += ["def keys_%s : List Float := [%s]" % (f, ", ".join(lean_float(k) for k in keys)),
+                 "def same_%s (a b : %s_Memo Float) : Bool := %s" % (f, f, same),
+                 "#eval (keys_%s.flatMap fun x => (keys_%s.filter fun y => !same_%s (%s_prologue ieee x (%s_prologue ieee y (%s_Memo.init ieee))) "
+                 "(%s_prologue ieee x (%s_Memo.init ieee))).map fun y => (\"%s\", x.toBits, y.toBits)).take %d" % (
+                     f, f, f, f, f, f, f, f, f, limit), ""]
+    if not wanted:
+        return {}, ""
+    rc, out = vlib.lean_run_file("\n".join(text) + "\n")
+    res = {}
+    for m in re.finditer(r'\("(\w+)", (\d+), (\d+)\)', out):
+        x = struct.unpack("<d", struct.pack("<Q", int(m.group(2))))[0]
+        y = struct.unpack("<d", struct.pack("<Q", int(m.group(3))))[0]
+        res.setdefault(m.group(1), []).append((x, y))
+    return res, out
+
+
+def memo_scenarios(fname, pairs, seed=42):
+    """Seed-alone scenarios steered at a memo: for each (x, y) the memoising function `fname` is called with key y before
+    seeding and with key x after seeding (run 1), against a thread that only seeds and calls it with x (run 0)."""
+    ops = MEMO_OPS.get(fname)
+    if ops is None:
+        short = fname.replace("cmb_random_", "")
+        ops = [(short, lambda x: [x])] if any(d[0] == short for d in DISTS) else []
+    out = []
+    for x, y in pairs:
+        for name, mk in ops:
+            call = "dist %s 5 %s" % (name, " ".join(fmt(p) for p in mk(x)))
+            hist = "dist %s 1 %s" % (name, " ".join(fmt(p) for p in mk(y)))
+            for mode in ("seq", "main"):
+                out.append(Scenario("seedalone", mode, [["seed %d" % seed, "mark", call], [hist, "seed %d" % seed, "mark", call]]))
+    return out
 
 
 def corpus():
